@@ -58,6 +58,23 @@ def check(ctx):
                    f"keys are generated from {t}: np.lexsort treats its LAST key as primary, so the user's first column "
                    f"must come last -- without the reversal the key priority is inverted")
         ctx.ob("ORD-1", sort, norm(c)[:120], c, ok, why, clause="ordered lexicographically by the named columns")
+    from .shared import yields_of, row_index_of
+    for y in yields_of(sort):
+        colexpr, idx, op = row_index_of(y.value.elts[1])
+        if isinstance(idx, ast.Name):
+            ds = defs_reaching(sort, idx.id, y)
+            ok = bool(ds) and all(d.kind == "assign" and isinstance(d.value, ast.Call) and repo.dotted(sort, d.value.func) == "numpy.lexsort" for d in ds)
+            ctx.ob("ORD-1", sort, f"{idx.id} = {' | '.join(norm(d.value) if d.value is not None else d.kind for d in ds)[:140]}", y, ok,
+                   "rows are permuted by the np.lexsort result itself" if ok else
+                   f"the permutation {idx.id} applied to the rows is not (only) the np.lexsort result: reversing or otherwise "
+                   f"transforming a stable permutation reverses the order of tied rows",
+                   clause="rows equal on all sort keys keep their original relative order")
+    if kwparam:
+        rebind = [n for n in body_nodes(sort.node) if isinstance(n, ast.Name) and n.id == kwparam and isinstance(n.ctx, ast.Store)]
+        ctx.ob("ORD-1", sort, f"{kwparam} is used as given", rebind[0] if rebind else sort.node, not rebind,
+               "the requested (column, direction) pairs reach the key construction unchanged" if not rebind else
+               f"{kwparam} is rebound before the keys are built: the requested directions/keys are rewritten",
+               nontrivial=False, clause="in the requested directions")
     key = sort.nested.get("sort_key")
     scope = [sort] + list(sort.nested.values())
     for fn in scope:
